@@ -2,6 +2,19 @@
 """Writes the one-paragraph 'what it changes / what it needs to manifest' into every seeded/<id>/meta.json."""
 import json, os
 NEEDS = {
+ "C01-c": ("the \\Seen side effect of a non-PEEK body FETCH is applied to the snapshot before the fetch can fail", "read-write SELECT, an unseen message, a body FETCH of a part that does not exist (BODY[2.1]): NO, no FETCH response, but the view has \\Seen"),
+ "C01-d": ("flag FETCH responses are merged backwards across an EXPUNGE of a lower sequence number", "within one flush window: flag change on message k, EXPUNGE of j<k, flag change on the new message k"),
+ "C03-c": ("STORE FLAGS (replace) without \\Deleted no longer clears the per-mailbox deleted mark in the index", "a message already \\Deleted, a replacing STORE without it, then a fresh SELECT / EXPUNGE"),
+ "C03-d": ("APPEND with \\Deleted announces the message to selected sessions without the flag", "APPEND (\\Deleted) into a mailbox another session has selected, then EXPUNGE/CLOSE from that selection"),
+ "C06-c": ("MessagesCreated caches a failed mailbox lookup", "one update with IgnoreUnknownMailboxIDs in which the same unknown mailbox id occurs twice: the valid batch fails"),
+ "C06-d": ("a connector MailboxUpdated that only changes letter case is treated as 'same name'", "rename work -> Work from the connector"),
+ "C07-c": ("SetMailboxMessagesDeletedFlag binds the whole id list for every chunk", "one STORE of \\Deleted on more than 1000 messages, then a restart or fresh SELECT (an index defect: caught by C03 and C08, not by C07's small base state)"),
+ "C07-d": ("any non-migration error of the database Init recreates the user's database", "a transient DB failure exactly during start-up, then another start: everything is gone"),
+ "C14-c": ("RENAME replaces every occurrence of the old name inside inferiors", "an inferior whose name repeats the old name after the prefix (work/work, work/homework)"),
+ "C14-d": ("the case-insensitive INBOX prefix is only recognised with exactly one more level", "names like inbox/a/b (two or more levels below a non-upper-case INBOX)"),
+ "C15-c": ("SENTSINCE compares instants instead of the header's calendar day", "a Date header with a non-zero offset whose local day differs from its UTC day, searched at that boundary"),
+ "C15-d": ("TEXT lower-cases the search string before charset-decoding it", "TEXT with CHARSET ISO-8859-1 and a non-ASCII string"),
+
  "C01-a": ("STORE FLAGS (replace) stores one shared flag set in several sessions' snapshots", "two sessions with the mailbox selected, the message not \\Recent in them, a replacing STORE, then another session's FETCH that sets \\Seen: the first session's view changes without a FETCH response"),
  "C01-b": ("untagged responses buffered during IDLE are dropped when DONE arrives before the next bulk tick", "IDLE with bulking, an update applied during IDLE, DONE before the next tick"),
  "C02-a": ("pending responders survive a mailbox switch", "an update for mailbox A applied to a session between two commands, then SELECT of B before any flush"),
